@@ -14,7 +14,7 @@ from vlib.pipes import OPS, op_names
 from vlib.values import NAMES, Tagged, val
 from vlib.relsub import INF, Diverged, DProbe, OBuilder, TLab, all_inners, gw_index, live_during, release_deadline, slot_index
 
-from props.C02 import cases, cases_forced, cases_gbu, cases_inner, make_gbu, recursion_seen
+from props.C02 import mk_lab, cases, cases_forced, cases_gbu, cases_inner, make_gbu, recursion_seen
 
 PROPERTY_ID = "C03"
 LEVEL = "exploration"
@@ -24,7 +24,7 @@ RULE = (
     "free pipelines, pipelines with an Observable-producing operator, pipelines with an early-ending operator) plus a "
     "family of creation functions that run user code (on_error_resume_next over source factories, concat of defer "
     "factories, concat_with_iterable/catch_with_iterable/from_iterable over lazily pulled logged generators, for_in, "
-    "generate, using) followed by 0-2 operators; plus the family 'trampoline' (see below). For each case a reference run records the set E of clock values at "
+    "generate, generate_with_relative_time, if_then, case, using) followed by 0-2 operators; plus the family 'trampoline' (see below). For each case a reference run records the set E of clock values at "
     "which any scheduled action ran and the number of top-level probe callbacks; then the case is re-run once per "
     "dispose point: for every t in E u {t-1, t+1} (t >= 0, up to one tick past the natural end, at most 14 instants) "
     "in three queue positions - 'first' (the dispose action is enqueued for t before anything is built, so it "
@@ -58,6 +58,12 @@ RULE = (
     "release done by take/first); same clauses (a)-(e); a work item that a run loop already active at dispose starts "
     "later is never a 'tail'. Non-trivial there: the callback was an on_next and something followed it in the "
     "undisturbed run ('cut'). "
+    "Inner subscriptions as the judged subscription: in every run (and in extra runs that dispose the j-th inner "
+    "group/window subscriber, j < 3 (4 thorough), as the last action of up to 4 (8) instants of its life) an inner probe "
+    "gets no notification after its own dispose() returned, and when the outer subscriber had already ended and no "
+    "other group/window subscriber is live, no pipeline-opened source subscription is open synchronously after that "
+    "dispose (upstream of subscribe_on: by the end of the instant). One case in four runs on HistoricalScheduler "
+    "(datetime clock, timedelta arguments). Thorough raises the bounds to 24 instants / 16 callbacks / depth 6. "
     "Non-trivial run: at the moment of dispose the top probe had no terminal and >=1 pipeline-opened source "
     "subscription was open; a case is non-trivial if it has such a run. Distinct = distinct case JSON. Classes count "
     "runs (labels run:<position>:<kind>[+exemption...]) as well as cases."
@@ -72,6 +78,8 @@ ASSUMPTIONS = [
 
 MAX_INSTANTS = 14
 MAX_CB = 10
+MAX_INNER = 3
+MAX_INNER_INSTANTS = 4
 REQUEUE_LIMIT = 30
 
 
@@ -87,7 +95,7 @@ def _pending_now(lab):
 
 def run_variant(case, variant, make):
     """variant: None (reference) | ["first"|"mid"|"last", t] | ["cb", k].  make(lab) -> observable."""
-    lab = TLab()
+    lab = mk_lab(case)
     holder = {}
     kind = variant[0] if variant else None
 
@@ -109,6 +117,20 @@ def run_variant(case, variant, make):
         return lab, p
     if kind == "mid":
         lab.at(variant[1], disposer)
+    elif kind == "inner":
+        # the judged subscription is the j-th inner (group/window) subscription: disposed as the last action of instant t
+        left_i = [REQUEUE_LIMIT]
+
+        def last_inner():
+            if left_i[0] > 0 and _pending_now(lab):
+                left_i[0] -= 1
+                lab.at(lab.now(), last_inner)
+                return
+            qs = all_inners(p)
+            if variant[1] < len(qs) and qs[variant[1]].live_now():
+                qs[variant[1]].dispose()
+
+        lab.at(variant[2], last_inner)
     elif kind == "last":
         left = [REQUEUE_LIMIT]
 
@@ -253,7 +275,49 @@ def dispose_points(lab0, p0):
             out.append([pos, t])
     for k in range(min(len(p0.events), MAX_CB)):
         out.append(["cb", k])
+    for j, q in enumerate(all_inners(p0)[:MAX_INNER]):
+        if q.raw or q.sub_tick is None:
+            continue
+        e = q.end_tick()
+        live = [t for t in pts if q.sub_tick <= t <= (e if e is not None else hi)]
+        for t in live[:MAX_INNER_INSTANTS]:
+            out.append(["inner", j, t])
     return out
+
+
+def judge_inner(case, lab, p, pc):
+    """Inner (group/window) subscriptions as the judged subscription: after an inner subscriber's dispose() returned it
+    gets no notification; if the outer subscriber had already ended and no other group/window subscriber is live,
+    nothing is shared any more and every pipeline-opened source subscription is closed synchronously.
+    Returns (classes, failure|None)."""
+    cls = []
+    if lab.inconclusive or lab.escaped is not None:
+        return cls, None
+    S = None
+    for i_, (n_, _a) in enumerate(pc["ops"]):
+        if n_.startswith("subscribe_on"):
+            S = i_
+    pt = p.terminal()
+    for q in all_inners(p):
+        if q.raw or q.disposed_seq is None:
+            continue
+        if q.after_dispose:
+            e = q.after_dispose[0]
+            return cls, (f"inner-notified-after-dispose|{_culprit(pc, None)}", f"inner probe {q.name} got {e[1]} {e[2]} at t={e[0]} after its dispose (t={q.disposed_tick}); case={case}")
+        qt = q.terminal()
+        if qt is not None and qt[3] < q.disposed_seq:
+            continue  # had already terminated
+        top_ended = (pt is not None and pt[3] < q.disposed_seq) or (p.disposed_seq is not None and p.disposed_seq < q.disposed_seq)
+        others = [x for x in (q.live_after or ()) if not x.raw]
+        if not top_ended or others:
+            cls.append("inner-dispose:still-shared")
+            continue
+        cls.append("inner-dispose:last-subscriber")
+        for s, i in q.open_after or ():
+            if S is not None and s.owner <= S:
+                continue
+            return cls, (f"open-after-last-inner-dispose|{_culprit(pc, s.owner)}", f"source {s.name} subscription #{i} {s.subs[i]} still open right after the last live subscriber ({q.name}) disposed at t={q.disposed_tick}; outer subscriber had ended; case={case}")
+    return cls, None
 
 
 def run_case(case, make, pc):
@@ -266,9 +330,25 @@ def run_case(case, make, pc):
     only = case.get("only")
     variants = [only] if only else dispose_points(lab0, p0)
     cls = []
+    if case.get("clock") == "hist":
+        cls.append("case:clock:hist")
     nt = False
+    c_, f_ = judge_inner(case, lab0, p0, pc)
+    cls += c_
+    if f_ is not None:
+        return FAIL(f_[0], f_[1] + " [reference run]", classes=cls)
     for v in variants:
         lab, p = run_variant(case, v, make)
+        if p is None:
+            continue
+        c_, f_ = judge_inner(case, lab, p, pc)
+        cls += c_
+        if f_ is not None:
+            return FAIL(f_[0], f_[1] + f" [variant {v}]", classes=cls)
+        if v[0] == "inner":
+            cls.append("run:inner")
+            cls.append("runs")
+            continue
         label, failure = judge(case, v, lab, p, pc, G)
         cls.append(f"run:{v[0]}:{label}")
         cls.append("runs")
@@ -336,6 +416,15 @@ def _run_factories(case):
         elif form == "generate":
             n = len(case["vals"])
             o = reactivex.generate(0, B.fn("condition", lambda i: i < n), B.fn("iterate", lambda i: i + 1))
+        elif form == "if_then":
+            o = reactivex.if_then(B.fn("condition", lambda: len(case["vals"]) % 2 == 1), src(specs[0], False), src(specs[1], False))
+        elif form == "case":
+            o = reactivex.case(B.fn("mapper", lambda: len(case["vals"]) % 3), {i: src(sp, False) for i, sp in enumerate(specs[:2])}, src(specs[-1], False))
+        elif form == "generate_with_relative_time":
+            n = len(case["vals"])
+            o = reactivex.generate_with_relative_time(
+                0, B.fn("condition", lambda i: i < n), B.fn("iterate", lambda i: i + 1), B.fn("time_mapper", lambda i: lab.rel(1 + i % 2))
+            )
         elif form == "using":
             res = Disposable(B.fn("resource_dispose", lambda: None))
             o = reactivex.using(B.fn("resource_factory", lambda: res), B.fn("observable_factory", lambda r: src(specs[0])))
@@ -345,10 +434,13 @@ def _run_factories(case):
             o = B.build_op(name, args)(o)
         return o
 
-    return run_case(case, make, pc)
+    r = run_case(case, make, pc)
+    r.classes = tuple(r.classes) + ("form:" + form,)
+    return r
 
 
-_FORMS = ["on_error_resume_next", "on_error_resume_next", "concat", "concat_with_iterable", "catch_with_iterable", "for_in", "from_iterable", "generate", "using"]
+_FORMS = ["on_error_resume_next", "on_error_resume_next", "concat", "concat_with_iterable", "catch_with_iterable", "for_in", "from_iterable", "generate", "using",
+          "if_then", "case", "generate_with_relative_time"]
 
 
 def _factory_cases():
@@ -410,6 +502,15 @@ def _tramp_source(lab, B, node, slotp, owner):
         return reactivex.generate(0, fn("generate.condition", lambda i: i < n), fn("generate.iterate", lambda i: i + 1))
     if k == "sync":  # logged harness source emitting inside subscribe(); open-ended when it has no terminal
         return B._mk({"kind": "sync", "tl": [[0, m[0], m[1]] for m in node[1]]}, owner, True)
+    if k == "if_then":
+        return reactivex.if_then(fn("if_then.condition", lambda: node[1]), sub(node[2]), sub(node[3]))
+    if k == "case":
+        return reactivex.case(fn("case.mapper", lambda: node[1]), {i: sub(n) for i, n in enumerate(node[2])}, sub(node[3]))
+    if k == "for_in":
+        return reactivex.for_in(list(range(len(node[1]))), fn("for_in.mapper", lambda i: sub(node[1][i])))
+    if k == "using":
+        res = Disposable(fn("using.resource_dispose", lambda: None))
+        return reactivex.using(fn("using.resource_factory", lambda: res), fn("using.observable_factory", lambda r: sub(node[1])))
     if k == "defer":
         f = fn("defer.factory", lambda: sub(node[1]))
         return reactivex.defer(lambda sch: f())
@@ -521,6 +622,10 @@ def _tramp_cases(max_depth=2, max_ops=3):
         leaf,
         lambda ch: st.one_of(
             ch.map(lambda n: ["defer", n]),
+            ch.map(lambda n: ["using", n]),
+            st.tuples(st.just("if_then"), st.booleans(), ch, ch).map(list),
+            st.tuples(st.just("case"), st.integers(0, 2), st.lists(ch, min_size=1, max_size=2), ch).map(list),
+            st.lists(ch, min_size=1, max_size=3).map(lambda ns: ["for_in", ns]),
             st.tuples(st.sampled_from(["concat", "merge", "merge", "on_error_resume_next", "catch"]), st.lists(ch, min_size=1, max_size=3)).map(list),
         ),
         max_leaves=5,
@@ -535,12 +640,14 @@ def _tramp_cases(max_depth=2, max_ops=3):
 
 
 def checks(tier):
+    global MAX_INSTANTS, MAX_CB, MAX_INNER, MAX_INNER_INSTANTS
     q = tier == "quick"
+    MAX_INSTANTS, MAX_CB, MAX_INNER, MAX_INNER_INSTANTS = (14, 10, 3, 4) if q else (24, 16, 4, 8)
     return [
-        Check("pipelines", _run, strategy=cases(4 if q else 6), examples={"quick": 320, "thorough": 16 * 1500}, shards={"quick": 8, "thorough": 16}),
-        Check("inners", _run, strategy=cases_inner(4 if q else 6), examples={"quick": 320, "thorough": 16 * 1500}, shards={"quick": 8, "thorough": 16}),
-        Check("enders", _run, strategy=cases_forced(3 if q else 5), examples={"quick": 200, "thorough": 16 * 750}, shards={"quick": 8, "thorough": 16}),
-        Check("gbu_self", _run_gbu, strategy=cases_gbu(), examples={"quick": 120, "thorough": 16 * 750}, shards={"quick": 8, "thorough": 16}),
+        Check("pipelines", _run, strategy=cases(4 if q else 6), examples={"quick": 320, "thorough": 16 * 1000}, shards={"quick": 8, "thorough": 16}),
+        Check("inners", _run, strategy=cases_inner(4 if q else 6), examples={"quick": 320, "thorough": 16 * 1000}, shards={"quick": 8, "thorough": 16}),
+        Check("enders", _run, strategy=cases_forced(3 if q else 5), examples={"quick": 200, "thorough": 16 * 600}, shards={"quick": 8, "thorough": 16}),
+        Check("gbu_self", _run_gbu, strategy=cases_gbu(), examples={"quick": 120, "thorough": 16 * 600}, shards={"quick": 8, "thorough": 16}),
         Check("trampoline", _run_tramp, strategy=_tramp_cases(2, 3 if q else 5), examples={"quick": 1200, "thorough": 16 * 3000}, shards={"quick": 8, "thorough": 16}),
-        Check("factories", _run_factories, strategy=_factory_cases(), examples={"quick": 200, "thorough": 16 * 750}, shards={"quick": 8, "thorough": 16}),
+        Check("factories", _run_factories, strategy=_factory_cases(), examples={"quick": 200, "thorough": 16 * 600}, shards={"quick": 8, "thorough": 16}),
     ]
